@@ -283,3 +283,145 @@ Section RingLin.
       rewrite lins_str_app, app_assoc, (B Hpb), <- !app_assoc. f_equal. apply Hc. exact Hpc.
   Qed.
 End RingLin.
+
+(** ------------------------------------------------------------------ extensionality in the ring-symbol text *)
+Lemma ring_pure_ext f g : (forall ri, f ri = g ri) -> forall ris mk, ring_pure f mk ris = ring_pure g mk ris.
+Proof.
+  intros H. induction ris as [|ri r IH]; intros mk; [reflexivity|]. cbn [ring_pure].
+  destruct (mk_get ri mk); rewrite IH, ?H; reflexivity.
+Qed.
+Lemma wtextR_ext sf ntext stext rlist f g : (forall ri, f ri = g ri) ->
+  forall t p isb d mk, wtextR sf ntext stext rlist f p isb d mk t = wtextR sf ntext stext rlist g p isb d mk t.
+Proof.
+  intros H. apply (rtree_ind2 (fun t => forall p isb d mk, wtextR sf ntext stext rlist f p isb d mk t = wtextR sf ntext stext rlist g p isb d mk t)).
+  intros k cs IH p isb d mk. destruct cs as [|c1 bs].
+  - cbn [wtextR]. now rewrite (ring_pure_ext f g H).
+  - cbn [wtextR]. rewrite (ring_pure_ext f g H). destruct (ring_pure g mk (rlist k)) as [[mk1 rt] trc].
+    set (d1 := if isb then Datatypes.S d else d).
+    assert (B : forall l,
+              Forall (fun t => forall p isb d mk, wtextR sf ntext stext rlist f p isb d mk t = wtextR sf ntext stext rlist g p isb d mk t) l ->
+              wbranchesR sf ntext stext rlist f k d1 mk1 l = wbranchesR sf ntext stext rlist g k d1 mk1 l).
+    { induction l as [|c r IHr]; intros Hl; [reflexivity|].
+      change (wbranchesR sf ntext stext rlist f k d1 mk1 (c :: r))
+        with (let '(t2, mk2, m2) := wbranchesR sf ntext stext rlist f k d1 mk1 r in
+              let '(t1, mk3, m1) := wtextR sf ntext stext rlist f (Some k) true d1 mk2 c in (t2 ++ t1, mk3, m2 ++ m1)).
+      change (wbranchesR sf ntext stext rlist g k d1 mk1 (c :: r))
+        with (let '(t2, mk2, m2) := wbranchesR sf ntext stext rlist g k d1 mk1 r in
+              let '(t1, mk3, m1) := wtextR sf ntext stext rlist g (Some k) true d1 mk2 c in (t2 ++ t1, mk3, m2 ++ m1)).
+      rewrite (IHr (Forall_inv_tail Hl)). destruct (wbranchesR sf ntext stext rlist g k d1 mk1 r) as [[t2 mk2] m2].
+      now rewrite (Forall_inv Hl). }
+    fold (wbranchesR sf ntext stext rlist f k d1 mk1 bs). fold (wbranchesR sf ntext stext rlist g k d1 mk1 bs).
+    rewrite (B bs (Forall_inv_tail IH)). destruct (wbranchesR sf ntext stext rlist g k d1 mk1 bs) as [[tb mkb] mb].
+    now rewrite (Forall_inv IH).
+Qed.
+
+Section RingLinOk.
+  Variable fo : float_oracle.
+  Variable name : Z -> pystr.
+  Variable esym : Z -> Z -> option sym.
+  Variable rlist : Z -> list nat.
+  Variable rsym_o : nat -> option sym.
+  Notation tlinsR := (tlinsR name esym rlist rsym_o).
+  Notation blinsR := (blinsR name esym rlist rsym_o).
+
+  Lemma mklinR_ok isb k mk b c : name_ok fo (name k) = true -> (match c with Some _ => b = None | None => True end) ->
+    lin_ok fo (mklinR name isb k (snd (ring_items rsym_o mk (rlist k))) b c) = true.
+  Proof.
+    intros Hk Hc. unfold lin_ok, mklinR. cbn [l_name l_rings l_mult l_close l_bond]. rewrite Hk.
+    destruct (ring_items_pure rsym_o (rlist k) mk) as (_ & _ & M). rewrite M. cbn [andb].
+    destruct c; [subst b; reflexivity|reflexivity].
+  Qed.
+
+  Lemma tlinsR_ok : forall t isb d ns mk, (forall k, In k (rkeys t) -> name_ok fo (name k) = true) ->
+    forallb (lin_ok fo) (fst (tlinsR isb d ns mk t)) = true.
+  Proof.
+    apply (rtree_ind2 (fun t => forall isb d ns mk, (forall k, In k (rkeys t) -> name_ok fo (name k) = true) ->
+              forallb (lin_ok fo) (fst (tlinsR isb d ns mk t)) = true)).
+    intros k cs IH isb d ns mk Hn. cbn [rkeys] in Hn.
+    assert (Hk : name_ok fo (name k) = true) by (apply Hn; now left).
+    destruct cs as [|c1 bs].
+    - cbn [RingRead.tlinsR]. pose proof (mklinR_ok isb k mk) as M.
+      destruct (ring_items rsym_o mk (rlist k)) as [mk1 rs]. cbn [fst snd forallb] in *. rewrite andb_true_r.
+      destruct (0 <? (if isb then Datatypes.S d else d))%nat; apply M; auto.
+    - rewrite tlinsR_unfold. cbv zeta. set (d1 := if isb then Datatypes.S d else d).
+      pose proof (mklinR_ok isb k mk (esym k (rkey (last bs c1))) None Hk I) as M.
+      destruct (ring_items rsym_o mk (rlist k)) as [mk1 rs]. cbn [snd] in M.
+      assert (B : forall l prev, Forall (fun t => forall isb d ns mk, (forall k, In k (rkeys t) -> name_ok fo (name k) = true) ->
+                    forallb (lin_ok fo) (fst (tlinsR isb d ns mk t)) = true) l ->
+                  (forall x, In x (flat_map rkeys l) -> name_ok fo (name x) = true) ->
+                  forallb (lin_ok fo) (fst (blinsR k d1 mk1 prev l)) = true).
+      { induction l as [|c r IHr]; intros prev Hl Hx; [reflexivity|]. rewrite blinsR_cons. cbn [flat_map] in Hx.
+        specialize (IHr c (Forall_inv_tail Hl) (fun x H => Hx x (in_or_app _ _ _ (or_intror H)))).
+        destruct (blinsR k d1 mk1 c r) as [l2 mk2]. cbn [fst] in IHr.
+        pose proof (Forall_inv Hl true d1 (esym k (rkey prev)) mk2 (fun x H => Hx x (in_or_app _ _ _ (or_introl H)))) as Hc.
+        destruct (tlinsR true d1 (esym k (rkey prev)) mk2 c) as [l1 mk3]. cbn [fst] in *. rewrite forallb_app, IHr, Hc. reflexivity. }
+      specialize (B bs c1 (Forall_inv_tail IH) (fun x H => Hn x (or_intror (in_or_app _ _ _ (or_intror H))))).
+      destruct (blinsR k d1 mk1 c1 bs) as [lb mkb]. cbn [fst] in B.
+      pose proof (Forall_inv IH false d1 ns mkb (fun x H => Hn x (or_intror (in_or_app _ _ _ (or_introl H))))) as Hc.
+      destruct (tlinsR false d1 ns mkb c1) as [lc mkc]. cbn [fst forallb] in *. rewrite M, forallb_app, B, Hc. reflexivity.
+  Qed.
+
+  Lemma tlinsR_depth : forall t isb d ns mk rest,
+    lin_depth d (fst (tlinsR isb d ns mk t) ++ rest) = lin_depth (dout isb d) rest.
+  Proof.
+    apply (rtree_ind2 (fun t => forall isb d ns mk rest, lin_depth d (fst (tlinsR isb d ns mk t) ++ rest) = lin_depth (dout isb d) rest)).
+    intros k cs IH isb d ns mk rest.
+    destruct cs as [|c1 bs].
+    - cbn [RingRead.tlinsR]. destruct (ring_items rsym_o mk (rlist k)) as [mk1 rs].
+      cbn [fst app lin_depth mklinR l_open l_close]. unfold dout.
+      destruct isb; cbn [Nat.ltb Nat.leb].
+      + reflexivity.
+      + destruct d as [|d']; cbn [Nat.ltb Nat.leb]; [reflexivity|]. f_equal. lia.
+    - rewrite tlinsR_unfold. cbv zeta. set (d1 := if isb then Datatypes.S d else d).
+      destruct (ring_items rsym_o mk (rlist k)) as [mk1 rs].
+      assert (B : forall l prev rest', Forall (fun t => forall isb d ns mk rest, lin_depth d (fst (tlinsR isb d ns mk t) ++ rest) = lin_depth (dout isb d) rest) l ->
+                  lin_depth d1 (fst (blinsR k d1 mk1 prev l) ++ rest') = lin_depth d1 rest').
+      { induction l as [|c r IHr]; intros prev rest' Hl; [reflexivity|]. rewrite blinsR_cons.
+        specialize (IHr c). destruct (blinsR k d1 mk1 c r) as [l2 mk2]. cbn [fst] in IHr.
+        pose proof (Forall_inv Hl true d1 (esym k (rkey prev)) mk2) as Hc.
+        destruct (tlinsR true d1 (esym k (rkey prev)) mk2 c) as [l1 mk3]. cbn [fst] in *.
+        rewrite <- app_assoc, (IHr _ (Forall_inv_tail Hl)). apply Hc. }
+      specialize (B bs c1). destruct (blinsR k d1 mk1 c1 bs) as [lb mkb]. cbn [fst] in B.
+      pose proof (Forall_inv IH false d1 ns mkb) as Hc.
+      destruct (tlinsR false d1 ns mkb c1) as [lc mkc]. cbn [fst] in *.
+      cbn [app lin_depth mklinR l_open l_close]. fold d1.
+      rewrite <- app_assoc, (B _ (Forall_inv_tail IH)), Hc. unfold dout, d1. destruct isb; f_equal; lia.
+  Qed.
+  Lemma tlinsR_first t ns mk : match fst (tlinsR false 0 ns mk t) with i :: _ => negb (l_open i) | [] => true end = true.
+  Proof.
+    destruct t as [k [|c1 bs]].
+    - cbn [RingRead.tlinsR]. destruct (ring_items rsym_o mk (rlist k)). reflexivity.
+    - rewrite tlinsR_unfold. cbv zeta. destruct (ring_items rsym_o mk (rlist k)).
+      destruct (blinsR k 0 m c1 bs). destruct (tlinsR false 0 ns m0 c1). reflexivity.
+  Qed.
+End RingLinOk.
+
+(** transcript level: what the loop writes is read by the reader model as the token machine's denotation of the
+    writer's own item list -- for ANY tree + ring transcript outside the pct pattern *)
+Theorem written_text_is_read_by_the_machine : forall fo name esym rsym_o T tr fmt sym rsym n,
+  NoDup (rkeys T) -> (rsize T <= n)%nat ->
+  (forall k, In k (rkeys T) -> fmt k = Ok (ntext name k)) ->
+  (forall e, In e (redges T) -> sym (fst e) (snd e) = Ok (stext esym (fst e) (snd e))) ->
+  (forall bond, In bond tr -> exists s, rsym (fst bond) (snd bond) = Ok s) ->
+  (forall ri, rsymt_of rsym tr ri = rsymt rsym_o ri) ->
+  (forall k, In k (rkeys T) -> name_ok fo (name k) = true) ->
+  let items := fst (tlinsR name esym (rlist_of tr) rsym_o false 0 None [] T) in
+  rings_plain items = true ->
+  exists txt, run_writer n (mk_env false fmt sym rsym (redges T) tr) (rkey T)
+              = Ok {| r_text := txt; r_visit := worder T;
+                      r_mtrace := snd (wtextR false (ntext name) (stext esym) (rlist_of tr) (rsymt rsym_o) None false 0 [] T) |}
+              /\ read_cgsmiles fo (S "{" ++ txt ++ S "}") = denote_lin fo items.
+Proof.
+  intros fo name esym rsym_o T tr fmt sym rsym n ND Hn Hf Hs Hr Hrs Hok items Hpl.
+  pose proof (write_graph_transcript false fmt sym rsym (ntext name) (stext esym) T tr n ND Hn Hf Hs Hr) as W.
+  rewrite (wtextR_ext false (ntext name) (stext esym) (rlist_of tr) _ _ Hrs) in W.
+  pose proof (wtextR_lins name esym (rlist_of tr) rsym_o T None false 0%nat None [] Hpl) as E.
+  cbn [insym app osym_str] in E. rewrite app_nil_r in E.
+  destruct (wtextR false (ntext name) (stext esym) (rlist_of tr) (rsymt rsym_o) None false 0 [] T) as [[tx mk'] trc] eqn:Ew.
+  cbn [fst snd] in *. exists tx. split; [exact W|].
+  rewrite <- E. cbn [S list_ascii_of_string app]. apply reader_sim_lin.
+  unfold lins_ok. fold items. unfold items.
+  rewrite (tlinsR_ok fo name esym (rlist_of tr) rsym_o T false 0%nat None [] Hok).
+  pose proof (tlinsR_depth name esym (rlist_of tr) rsym_o T false 0%nat None [] []) as Hd. rewrite app_nil_r in Hd. rewrite Hd.
+  cbn [dout Nat.sub lin_depth andb]. apply tlinsR_first.
+Qed.
